@@ -182,7 +182,8 @@ async fn one_run(ctx: &Ctx, entry: &str, pre: &[Value], ci: usize, tpl: &str, cl
         None => bytes,
         Some((idx, mutn)) => {
             let mut rng = ctx.rng_for(ci, variant);
-            match g.concretise(leaves, idx, mutn, if variant > 0 { Some(&mut rng) } else { None }) {
+            // concretisations 0/1 select the endpoint's role / mode as built; 2/3 repeat them with noise in the free bytes
+            match g.concretise(leaves, idx, mutn, if variant >= 2 { Some(&mut rng) } else { None }) {
                 Some(i) => ep.prepare_input(i, &leaves[idx].n),
                 None => return Ok(None),
             }
